@@ -1,8 +1,8 @@
 // REPLAY_SOURCES: opm/input/eclipse/Schedule/UDQ/UDQFunction.cpp
 // REPLAY_SEARCH
 // Native replay for C17/udqfunc: every set of 1..3 elements with values from { undefined, -2, 0, 0.5, 3 } is passed to
-// the real ABS / DEF / EXP / LN / LOG / IDV and compared element by element with the definitions (undefined elements
-// stay undefined; IDV is the indicator of definedness; LN / LOG raise for a defined non-positive element).
+// the real ABS / DEF / EXP / LN / LOG / IDV / UNDEF and compared element by element with the definitions (undefined elements
+// stay undefined; IDV is the indicator of definedness; UNDEF is 1 exactly on the undefined elements; LN / LOG raise for a defined non-positive element).
 #include "replay.hpp"
 #include <opm/input/eclipse/Schedule/UDQ/UDQFunction.hpp>
 #include <opm/input/eclipse/Schedule/UDQ/UDQSet.hpp>
@@ -23,7 +23,7 @@ int main(int argc, char** argv)
             std::vector<std::optional<double>> a(n);
             for (std::size_t i = 0, c = code; i < n; ++i, c /= vals.size()) { a[i] = vals[c % vals.size()]; if (a[i]) arg.assign(i, *a[i]); }
             struct { const char* name; UDQSet (*f)(const UDQSet&); int kind; } fns[] = {
-                { "ABS", &F::ABS, 0 }, { "DEF", &F::DEF, 1 }, { "EXP", &F::EXP, 2 }, { "LN", &F::LN, 3 }, { "LOG", &F::LOG, 4 }, { "IDV", &F::IDV, 5 } };
+                { "ABS", &F::ABS, 0 }, { "DEF", &F::DEF, 1 }, { "EXP", &F::EXP, 2 }, { "LN", &F::LN, 3 }, { "LOG", &F::LOG, 4 }, { "IDV", &F::IDV, 5 }, { "UNDEF", &F::UNDEF, 6 } };
             for (const auto& fn : fns) {
                 bool mustThrow = false;
                 if (fn.kind == 3 || fn.kind == 4) for (const auto& x : a) if (x && *x <= 0) mustThrow = true;
@@ -38,6 +38,7 @@ int main(int argc, char** argv)
                     case 2: if (a[i]) e = std::exp(*a[i]); break;
                     case 3: if (a[i]) e = std::log(*a[i]); break;
                     case 4: if (a[i]) e = std::log10(*a[i]); break;
+                    case 6: if (!a[i]) e = 1.0; break;
                     default: e = a[i] ? 1.0 : 0.0;
                     }
                     ok = res.size() == n && res[i].defined() == e.has_value() && (!e || Replay::close(res[i].get(), *e, 1.0));
@@ -51,5 +52,5 @@ int main(int argc, char** argv)
             }
         }
     }
-    return r.verdict(true, "ABS / DEF / EXP / LN / LOG / IDV match their element-wise definitions on all test sets (bounded native search)");
+    return r.verdict(true, "ABS / DEF / EXP / LN / LOG / IDV / UNDEF match their element-wise definitions on all test sets (bounded native search)");
 }
